@@ -235,6 +235,14 @@ func (b *Batch) Compile(needUnopt bool) bool {
 		}
 		msg := b.compileOnce("src", "opt", false)
 		if msg != "" {
+			if file := b.templateCulprit(); file != "" {
+				// the compiler fails on a hand-written template file: every function subset
+				// contains it, so it is found by leaving the template files out one at a time
+				fn := b.Prog.ExternOf(file)
+				b.Gate = append(b.Gate, GateFailure{Func: fn, Stage: "compile-panic", Msg: msg, Files: filesOf(b.Prog.Subset(map[string]bool{}))})
+				b.Prog.DropRaw(file)
+				continue
+			}
 			culprit := b.bisectPanic(msg)
 			if culprit == nil {
 				ev.Infra("compiler fails on the batch but on no single function: %s", msg)
@@ -463,6 +471,34 @@ func (b *Batch) compileSubset(keep map[string]bool) string {
 	msg := side.compileOnce("src", "opt", false)
 	os.RemoveAll(side.Dir)
 	return msg
+}
+
+// templateCulprit: when the compiler fails even without any generated function, the name of
+// a template file whose removal (together with its plain companion) makes it succeed.
+func (b *Batch) templateCulprit() string {
+	if b.compileSubset(map[string]bool{}) == "" {
+		return ""
+	}
+	all := map[string]bool{}
+	for _, f := range b.Prog.AllFuncs() {
+		all[f.Name] = true
+	}
+	for _, f := range b.Prog.Files {
+		if len(f.Extern) == 0 {
+			continue
+		}
+		sub := b.Prog.Subset(all) // (with the generated functions: something must use the API)
+		sub.DropRaw(f.Name)
+		side := &Batch{env: b.env, Dir: filepath.Join(b.Dir, "bis"), Prog: sub}
+		os.RemoveAll(side.Dir)
+		side.WriteSources()
+		msg := side.compileOnce("src", "opt", false)
+		os.RemoveAll(side.Dir)
+		if msg == "" {
+			return f.Name
+		}
+	}
+	return ""
 }
 
 func (b *Batch) singleMsg(f *gen.Func) string {
